@@ -32,6 +32,7 @@ import sys
 from mitmproxy import dns as mdns
 from mitmproxy.dns import DNSMessage, Question, ResourceRecord
 from mitmproxy.net.dns import domain_names, https_records
+from mitmproxy.net.dns import types as mtypes
 
 from vmc import par
 from vmc.refs import dnsref as R
@@ -126,6 +127,13 @@ def rrs_of(m):
     return [[si, r.name, r.type, r.class_, r.ttl, bytes(r.data)] for si, s in enumerate(SECTIONS) for r in getattr(m, s)]
 
 
+ALL_TYPES = sorted(v for k, v in vars(mtypes).items() if k.isupper() and isinstance(v, int))
+
+
+def type_label(t):
+    return mtypes.to_str(t) if t in ALL_TYPES else "other"
+
+
 PLAIN = {"dot_label": False, "ptr_root": False, "alabel_upper": False}
 
 
@@ -137,6 +145,7 @@ def roundtrip(m, clause, t: Tally, case, nf):
                   sees them: a label containing the octet '.', labels followed by a pointer that resolves to the root,
                   an xn-- label with upper-case letters (all false in part A)
       group       RDATA group of the record's type per RFC (name-rdata / charstring / opaque)
+      rtype       the record type by name (types that mitmproxy.net.dns.types does not name are 'other')
       ptr_octets  whether the RDATA handed to the decoder holds octets >= 0xc0 that address an offset inside the message
       oversize    a record of the message to encode has more than 65535 octets of RDATA"""
     st, b = guarded(lambda: m.packed, 70000)
@@ -149,12 +158,12 @@ def roundtrip(m, clause, t: Tally, case, nf):
     rfeat = []
     if ref is not None:
         for rr in ref["an"] + ref["ns"] + ref["ar"]:
-            rfeat.append((R.rdata_group(rr["type"]), R.pointer_octets(b, rr)))
+            rfeat.append((R.rdata_group(rr["type"]), R.pointer_octets(b, rr), type_label(rr["type"])))
     st, m2 = guarded(DNSMessage.unpack, len(b), b)
     if st == "exc":
-        worst = next((x for x in rfeat if x[1] == "in-range"), ("-", "none"))
+        worst = next((x for x in rfeat if x[1] == "in-range"), ("-", "none", "-"))
         t.bad(clause, {"scope": "message", "stage": "decode", **nf, "exc": type(m2).__name__,
-                       "group": worst[0], "ptr_octets": worst[1]}, case, "a message", repr(m2)[:200])
+                       "group": worst[0], "ptr_octets": worst[1], "rtype": worst[2]}, case, "a message", repr(m2)[:200])
         return
     want = [hdr_of(m), qs_of(m), [len(getattr(m, s)) for s in SECTIONS]]
     got = [hdr_of(m2), qs_of(m2), [len(getattr(m2, s)) for s in SECTIONS]]
@@ -162,8 +171,8 @@ def roundtrip(m, clause, t: Tally, case, nf):
     a, b2 = rrs_of(m), rrs_of(m2)
     for i in range(min(len(a), len(b2))):
         t.judge(clause, a[i][:5] == b2[i][:5], {"scope": "owner", "stage": "compare", **nf}, case, a[i][:5], b2[i][:5])
-        g, s = rfeat[i] if i < len(rfeat) else ("ref-rejects-" + str(refkind), "unknown")
-        t.judge(clause, a[i][5] == b2[i][5], {"scope": "rdata", "stage": "compare", "group": g, "ptr_octets": s}, case, a[i][5], b2[i][5])
+        g, s, ty = rfeat[i] if i < len(rfeat) else ("ref-rejects-" + str(refkind), "unknown", "-")
+        t.judge(clause, a[i][5] == b2[i][5], {"scope": "rdata", "stage": "compare", "group": g, "ptr_octets": s, "rtype": ty}, case, a[i][5], b2[i][5])
 
 
 # ---------------------------------------------------------------------------
@@ -261,6 +270,42 @@ def a_single_record_cases(thorough):
         for kind in ("big-c0", "big-00"):
             for nq in (0, 1):
                 yield {"A": {"hdr": DEF_HDR, "q": [["a.b", ty, 1]] * nq, "an": [["a", ty, 1, 1, rdata_of(ty, kind)]], "ns": [], "ar": []}}
+
+
+def schema_rdata(rtype, ptrlike):
+    """RDATA that fits the reference schema of its type: names uncompressed, every other field boring or filled with c0 0c"""
+    out = b""
+    for f in R.SCHEMA[rtype]:
+        if f in ("N", "n"):
+            out += _NM
+        elif f == "H":
+            out += _PL if ptrlike else b"\x00\x01"
+        elif f == "I":
+            out += _PL * 2 if ptrlike else b"\x00\x00\x00\x01"
+        elif f[0] == "B":
+            out += (_PL * int(f[1:]))[:int(f[1:])] if ptrlike else bytes(int(f[1:]))
+        elif f in ("S", "S*"):
+            out += b"\x02" + _PL if ptrlike else b"\x01a"
+        elif f == "R":
+            out += _PL + b"\xff" if ptrlike else b"\x01"
+    return out
+
+
+def a_all_types_cases():
+    """every type mitmproxy.net.dns.types names (and two it does not) with pointer-like RDATA: octets that fit the type's
+    schema where the reference decoder has one, raw pointer-like octets for the types whose RDATA is opaque"""
+    for ty in ALL_TYPES + [65280, 65535]:
+        datas = []
+        if ty in R.SCHEMA:
+            datas += [schema_rdata(ty, False), schema_rdata(ty, True)]
+        if R.rdata_group(ty) != "name-rdata":
+            datas += [rdata_of(ty, k) for k in ("c0", "c00c", "c0ff", "ffff")] + [b"\x01" + _PL + b"\x02\x03", _PL * 4]
+        for d in datas:
+            for nq in (1, 0):
+                for sec in ("an", "ar"):
+                    body = {"hdr": DEF_HDR, "q": [["a.b", ty, 1]] * nq, "an": [], "ns": [], "ar": []}
+                    body[sec] = [["a.b", ty, 1, 60, d]]
+                    yield {"A": body}
 
 
 def a_multi_record_cases(thorough):
@@ -620,6 +665,8 @@ def all_cases(thorough):
     for c in a_question_cases(thorough):
         yield c
     for c in a_single_record_cases(thorough):
+        yield c
+    for c in a_all_types_cases():
         yield c
     for c in a_multi_record_cases(thorough):
         yield c
